@@ -44,6 +44,10 @@ BLOCKS = {
                              "exogenous\nG = [1., 2., 3.]", 0.5, ['x'], ['G']),
     'template-local-names-2': ("new_vector = 0.5*new_vector + G\norig_vector = new_vector + 1\nin_vec = LO + G\nLO = orig_vector(k-1)\nErr_Tolerance = 0.01\nMaxTime = 2\n"
                                "exogenous\nG = [1., 2., 3.]", 0.5, ['new_vector'], ['G']),
+    # an exogenous variable stated as a scalar (the in-process solver broadcasts it over the horizon)
+    'scalar-exogenous': ("x = 0.5*x + G + S\nErr_Tolerance = 0.01\nMaxTime = 2\nexogenous\nG = [1., 2., 3.]\nS = 20.", 0.5, ['x'], ['G']),
+    # the time step k used only as the source of a lag, next to a user-defined time axis
+    'k-as-lag-source': ("t = LT + 1.0\nLT = t(k-1)\nx = 0.5*x + PK + G\nPK = k(k-1)\nErr_Tolerance = 0.01\nMaxTime = 2\nexogenous\nG = [1., 2., 3.]", 0.5, ['x'], ['G']),
     'static-user-time': ("x = 0.5*y + c\ny = 0.5*x + 1\nc = 2.0\nt = 2016.\nErr_Tolerance = 0.01\nMaxTime = 2", 0.5, ['x', 'y'], []),
 }
 
